@@ -37,7 +37,8 @@ UH = {
     'a["name val"]': [('a["name val"]', 1, 'a.id', lambda e: e.an('id')), ('a.x', 2, "a['name val']", lambda e: e.an('name val'))],
     "a['x'],a2": [("a['x']", 2, 'a1', lambda e: e.a(1)), ('a2', 1, 'a[3]', lambda e: e.a(3))],
 }
-WH = {None: None, 'nex': W_NEX, 'odd': W_ODD, 'nf2': ('NF >= 2', lambda e: e.NF >= 2), 'a2x': ("a2 == 'x'", lambda e: e.a(2) == 'x')}
+WH = {None: None, 'nex': W_NEX, 'odd': W_ODD, 'nf2': ('NF >= 2', lambda e: e.NF >= 2), 'a2x': ("a2 == 'x'", lambda e: e.a(2) == 'x'),
+      'or': ("a1 == 'x' or NR == 2", lambda e: e.a(1) == 'x' or e.NR == 2)}
 CASES = {}
 SPEC = {}
 
@@ -68,11 +69,13 @@ def _build():
             _add('updh[%s|w=%s]' % (k, w), Q(update=upd, where=WH[w], ha=HA, update_set=bool(j)), shape, quick=True)
     # with joins
     jw = ('b2 is not None', lambda e: e.b(2) is not None)
+    jor = ("a2 == 'x' or b2 is None", lambda e: e.a(2) == 'x' or e.b(2) is None)
+    jif = ("True if b1 is None else a2 != 'x'", lambda e: True if e.b(1) is None else e.a(2) != 'x')
     for kind in ('INNER JOIN', 'LEFT JOIN', 'JOIN'):
         for k in ('swap', 'NU'):
             upd = U[k] if k != 'swap' else [('a1', 0, 'b2', lambda e: e.b(2)), ('a2', 1, 'a1', lambda e: e.a(1))]
-            for w in (None, jw):
-                _add('updj[%s|%s|w=%s]' % (kind.split()[0].lower(), k, 'b2' if w else None), Q(update=upd, where=w, join=join(kind)), ['ko', 'ks'], ['ks', 'ko'],
+            for wn, w in ((None, None), ('b2', jw), ('or', jor), ('ifelse', jif)):
+                _add('updj[%s|%s|w=%s]' % (kind.split()[0].lower(), k, wn), Q(update=upd, where=w, join=join(kind)), ['ko', 'ks'], ['ks', 'ko'],
                      quick=True, krange=2)
 
 
